@@ -475,4 +475,197 @@ theorem tn_disjoint : ∀ (l : List Measure) (a b : Nat) (k k' : Int), TN a k l 
     · subst hx; omega
     · have := p2 x hx; omega
 
+-- ------------------------------------------------------------------ the stretches chain
+
+
+theorem chain_zip : ∀ (tsl : List (Int × Nat)) (z : Int), (tsl.map (·.1)).Pairwise (· ≤ ·) →
+    (∀ x ∈ tsl, x.1 ≤ z) → ∀ (t0 : Int) (b0 : Nat), tsl.head? = some (t0, b0) →
+    SC t0.toNat z.toNat ((tsl.zip ((tsl.map (·.1)).tail ++ [z])).map mkStretch) := by
+  intro tsl
+  induction tsl with
+  | nil => intro z _ _ t0 b0 h; simp at h
+  | cons x rest ih =>
+    intro z hs hr t0 b0 hh
+    simp only [List.head?_cons, Option.some.injEq] at hh
+    subst hh
+    cases rest with
+    | nil =>
+      have e : ([(t0, b0)].zip (([(t0, b0)].map (·.1)).tail ++ [z])).map mkStretch = [(t0.toNat, z.toNat, b0)] := rfl
+      rw [e]
+      have := hr (t0, b0) List.mem_cons_self
+      exact (sc_cons ..).mpr ⟨rfl, Int.toNat_le_toNat this, rfl⟩
+    | cons y rest' =>
+      obtain ⟨t1, b1⟩ := y
+      have e : (((t0, b0) :: (t1, b1) :: rest').zip ((((t0, b0) :: (t1, b1) :: rest').map (·.1)).tail ++ [z])).map mkStretch
+          = (t0.toNat, t1.toNat, b0) ::
+            ((((t1, b1) :: rest').zip ((((t1, b1) :: rest').map (·.1)).tail ++ [z])).map mkStretch) := rfl
+      rw [e]
+      have hs' := List.pairwise_cons.mp hs
+      have h01 : t0 ≤ t1 := hs'.1 t1 (by simp)
+      refine (sc_cons ..).mpr ⟨rfl, Int.toNat_le_toNat h01, ?_⟩
+      exact ih z hs'.2 (fun x hx => hr x (List.mem_cons_of_mem _ hx)) t1 b1 rfl
+
+theorem tsEnds_eq (last : Nat) (starts : List Int) (h : starts.length = (tsEnds last starts).length) :
+    tsEnds last starts = starts.tail ++ [(last : Int)] := by
+  unfold tsEnds at h ⊢
+  split
+  · rfl
+  · rename_i e he
+    split
+    · rfl
+    · rename_i hlt
+      rw [he] at h
+      simp only [hlt, if_false] at h
+      cases starts with
+      | nil => simp at he
+      | cons a as => simp at h
+
+/-- the input the Reading allows: signatures in time order inside `[first, last]`, a non-empty timeline -/
+structure TsOK (p : PartM) : Prop where
+  sorted : (p.ts.map (·.t)).Pairwise (· ≤ ·)
+  range : ∀ s ∈ p.ts, (p.first : Int) ≤ s.t ∧ s.t ≤ (p.last : Int)
+  lt : p.first < p.last
+  nonempty : p.ts ≠ []
+
+theorem prepend_spec (first : Nat) (z : Int) (hfz : (first : Int) ≤ z) : ∀ (tsl : List (Int × Nat)), tsl ≠ [] →
+    (tsl.map (·.1)).Pairwise (· ≤ ·) → (∀ x ∈ tsl, (first : Int) ≤ x.1 ∧ x.1 ≤ z) →
+    ((tsPrepend first tsl).map (·.1)).Pairwise (· ≤ ·) ∧ (∀ x ∈ tsPrepend first tsl, (first : Int) ≤ x.1 ∧ x.1 ≤ z) ∧
+    ∃ b rest, tsPrepend first tsl = ((first : Int), b) :: rest := by
+  intro tsl hne hs hr
+  cases tsl with
+  | nil => exact absurd rfl hne
+  | cons x rest =>
+    obtain ⟨t0, b0⟩ := x
+    have e : tsPrepend first ((t0, b0) :: rest) =
+        if t0 > (first : Int) then ((first : Int), 4) :: (t0, b0) :: rest else (t0, b0) :: rest := rfl
+    by_cases hgt : t0 > (first : Int)
+    · rw [e, if_pos hgt]
+      refine ⟨?_, ?_, 4, _, rfl⟩
+      · simp only [List.map_cons]
+        refine List.pairwise_cons.mpr ⟨?_, by simpa using hs⟩
+        intro a ha
+        simp only [List.mem_cons, List.mem_map] at ha
+        rcases ha with rfl | ⟨y, hy, rfl⟩
+        · exact le_of_lt hgt
+        · exact (hr y (List.mem_cons_of_mem _ hy)).1
+      · intro y hy
+        rcases List.mem_cons.mp hy with rfl | hy
+        · exact ⟨le_refl _, hfz⟩
+        · exact hr y hy
+    · rw [e, if_neg hgt]
+      have h0 := hr (t0, b0) List.mem_cons_self
+      have : t0 = (first : Int) := by simp only at h0; omega
+      subst this
+      exact ⟨hs, hr, b0, rest, rfl⟩
+
+theorem dropLast_spec (first last : Nat) (hlt : first < last) (b : Nat) (rest : List (Int × Nat))
+    (hs : ((((first : Int), b) :: rest).map (·.1)).Pairwise (· ≤ ·))
+    (hr : ∀ x ∈ ((first : Int), b) :: rest, x.1 ≤ (last : Int)) :
+    ∃ rest', tsDropLast last (((first : Int), b) :: rest) = ((first : Int), b) :: rest' ∧
+      ((((first : Int), b) :: rest').map (·.1)).Pairwise (· ≤ ·) ∧
+      ∀ x ∈ ((first : Int), b) :: rest', x.1 ≤ (last : Int) := by
+  unfold tsDropLast
+  split
+  · rename_i t b' hl
+    split
+    · rename_i hge
+      cases rest with
+      | nil =>
+        exfalso
+        simp only [List.getLast?_singleton, Option.some.injEq, Prod.mk.injEq] at hl
+        have : (first : Int) < (last : Int) := by exact_mod_cast hlt
+        omega
+      | cons y ys =>
+        refine ⟨(y :: ys).dropLast, List.dropLast_cons_of_ne_nil (by simp), ?_, ?_⟩
+        · have hsub : (((first : Int), b) :: (y :: ys).dropLast).Sublist (((first : Int), b) :: y :: ys) :=
+            (List.dropLast_sublist _).cons_cons _
+          exact hs.sublist (hsub.map _)
+        · intro x hx
+          rcases List.mem_cons.mp hx with rfl | hx
+          · exact hr _ List.mem_cons_self
+          · exact hr x (List.mem_cons_of_mem _ (List.dropLast_subset _ hx))
+    · exact ⟨rest, rfl, hs, hr⟩
+  · exact ⟨rest, rfl, hs, hr⟩
+
+theorem stretches_chain (p : PartM) (hok : TsOK p) (l : List (Nat × Nat × Nat)) (h : stretches p = some l) :
+    SC p.first p.last l := by
+  have hfl : (p.first : Int) ≤ (p.last : Int) := by exact_mod_cast le_of_lt hok.lt
+  have h0s : ((p.ts.map fun s => (s.t, s.beats)).map (·.1)).Pairwise (· ≤ ·) := by
+    rw [List.map_map]; exact hok.sorted
+  have h0r : ∀ x ∈ (p.ts.map fun s => (s.t, s.beats)), (p.first : Int) ≤ x.1 ∧ x.1 ≤ (p.last : Int) := by
+    intro x hx
+    obtain ⟨s, hs, rfl⟩ := List.mem_map.mp hx
+    exact hok.range s hs
+  obtain ⟨p1, p2, b, rest, p3⟩ := prepend_spec p.first (p.last : Int) hfl _ (by simpa using hok.nonempty) h0s h0r
+  rw [p3] at p1 p2
+  obtain ⟨rest', d1, d2, d3⟩ := dropLast_spec p.first p.last hok.lt b rest p1 (fun x hx => (p2 x hx).2)
+  unfold stretches at h
+  simp only [p3, d1] at h
+  split at h
+  · cases h
+  · rename_i hlen
+    simp only [Option.some.injEq] at h
+    have hlen' := not_not.mp hlen
+    rw [tsEnds_eq _ _ hlen'] at h
+    rw [← h]
+    have := chain_zip (((p.first : Int), b) :: rest') (p.last : Int) d2 d3 (p.first : Int) b rfl
+    simpa using this
+
+-- ------------------------------------------------------------------ add_measures
+
+
+/-- what the Reading asks of the measures already present: in time order, non-empty, pairwise disjoint,
+    inside `[first, last]`, none straddling the end of a stretch -/
+structure ExistingOK (p : PartM) (l : List (Nat × Nat × Nat)) : Prop where
+  ordered : TD p.first p.measures
+  inside : ∀ m ∈ p.measures, m.stop ≤ p.last
+  noStraddle : ∀ m ∈ p.measures, ∀ x ∈ l, ¬ (m.start < x.2.1 ∧ x.2.1 < m.stop)
+
+theorem add_measures_sound (f : Rat → Nat → Option Rat) (hf : Integral f) (p : PartM) (fuel : Nat)
+    (l : List (Nat × Nat × Nat)) (ms' : List Measure)
+    (hts : p.ts.isEmpty = false) (hne : p.first ≠ p.last)
+    (hl : stretches p = some l) (hsc : SC p.first p.last l) (hex : ExistingOK p l)
+    (h : addMeasuresWith f p fuel = .ok ms') :
+    TN p.first 1 ms' p.last (1 + (ms'.length : Int)) ∧ (p.measures.map ext).Sublist (ms'.map ext) := by
+  unfold addMeasuresWith at h
+  rw [hts] at h
+  simp only [Bool.false_eq_true, if_false, hne, hl] at h
+  cases hr : runStretches f fuel l p.measures 1 with
+  | error e => rw [hr] at h; cases h
+  | ok r =>
+    obtain ⟨msr, mcr⟩ := r
+    rw [hr] at h
+    simp only [Except.map, Except.ok.injEq] at h
+    subst h
+    have h0 : InvAt p.first p.measures p.first p.measures 1 :=
+      ⟨[], p.measures, [], rfl, (tn_nil ..).mpr ⟨rfl, rfl⟩, hex.ordered, rfl, List.Sublist.refl _⟩
+    obtain ⟨done, todo, consumed, g1, g2, g3, g4, g5⟩ :=
+      run_inv f hf p.first p.measures fuel l p.first p.last p.measures 1 msr mcr hsc hex.noStraddle h0 hr
+    -- nothing can be left after the last point
+    have htodo : todo = [] := by
+      cases todo with
+      | nil => rfl
+      | cons m rest =>
+        exfalso
+        obtain ⟨t1, t2, _⟩ := (td_cons ..).mp g3
+        have := hex.inside m (by rw [g4]; simp)
+        omega
+    subst htodo
+    simp only [List.append_nil] at g1 g4
+    subst g1 g4
+    refine ⟨?_, g5⟩
+    have := (tn_numbers _ _ _ _ _ g2).2
+    rw [← this]; exact g2
+
+/-- `add_measures_sound` with the chain of stretches derived from the input -/
+theorem add_measures_sound' (f : Rat → Nat → Option Rat) (hf : Integral f) (p : PartM) (fuel : Nat)
+    (l : List (Nat × Nat × Nat)) (ms' : List Measure) (hok : TsOK p)
+    (hl : stretches p = some l) (hex : ExistingOK p l) (h : addMeasuresWith f p fuel = .ok ms') :
+    TN p.first 1 ms' p.last (1 + (ms'.length : Int)) ∧ (p.measures.map ext).Sublist (ms'.map ext) :=
+  add_measures_sound f hf p fuel l ms' (by
+      cases hts : p.ts with
+      | nil => exact absurd hts hok.nonempty
+      | cons a as => rfl)
+    (Nat.ne_of_lt hok.lt) hl (stretches_chain p hok l hl) hex h
+
 end C11Meas
